@@ -866,4 +866,51 @@ _C09 = [
          helpers={'_validate_positive_int': 'validate_positive_int'}, result='List α',
          tie_theorem='C09.src_chunked_iter_eq_model'),
 ]
+_C09 += [
+    dict(_C09_COMMON, qualname='unique_iter', lean_name='unique_iter', kind='generator',
+         tparams=['α', 'κ'], classes=['DecidableEq κ'],
+         params={'src': 'List α', 'key': 'Fn α → κ'}, kinds={'src': 'list', 'key': 'callable'},
+         locals={'key_func': 'Fn α → κ', 'seen': 'Set κ', 'k': 'κ'}, result='α',
+         tie_theorem='C09.src_unique_iter_eq_model'),
+    dict(_C09_COMMON, qualname='unique_iter', lean_name='unique_iter_nokey', kind='generator',
+         tparams=['α'], classes=['DecidableEq α'],
+         params={'src': 'List α', 'key': 'Msg'}, kinds={'src': 'list', 'key': 'none'},
+         locals={'key_func': 'Fn α → α', 'seen': 'Set α', 'k': 'α'}, result='α',
+         tie_theorem='C09.src_unique_iter_nokey_eq_model'),
+    dict(_C09_COMMON, qualname='bucketize', lean_name='bucketize', kind='function',
+         tparams=['α', 'κ', 'β'], classes=['DecidableEq κ'],
+         params={'src': 'List α', 'key': 'Fn α → κ', 'value_transform': 'Fn α → β', 'key_filter': 'Fn κ → Bool'},
+         kinds={'src': 'list', 'key': 'callable', 'value_transform': 'callable', 'key_filter': 'callable'},
+         locals={'key_func': 'Fn α → κ', 'ret': 'Dict κ | List β', 'key_of_val': 'κ', 'f': 'Fn α → β'},
+         result='Dict κ | List β', tie_theorem='C09.src_bucketize_eq_model'),
+    dict(_C09_COMMON, qualname='bucketize', lean_name='bucketize_plain', kind='function',
+         tparams=['α', 'κ'], classes=['DecidableEq κ'],
+         params={'src': 'List α', 'key': 'Fn α → κ', 'value_transform': 'Fn α → α', 'key_filter': 'Msg'},
+         kinds={'src': 'list', 'key': 'callable', 'value_transform': 'none', 'key_filter': 'none'},
+         locals={'key_func': 'Fn α → κ', 'ret': 'Dict κ | List α', 'key_of_val': 'κ', 'f': 'Fn α → α'},
+         result='Dict κ | List α', tie_theorem='C09.src_bucketize_plain_eq_model'),
+    dict(_C09_COMMON, qualname='split_iter', lean_name='split_iter_func', kind='generator',
+         tparams=['α'],
+         params={'src': 'List α', 'sep': 'Fn α → Bool', 'maxsplit': 'Option Int'},
+         kinds={'src': 'list', 'sep': 'callable'},
+         locals={'sep_func': 'Fn α → Bool', 'cur_group': 'List α', 'split_count': 'Int'}, result='List α',
+         tie_theorem='C09.src_split_iter_func_eq_model'),
+    dict(_C09_COMMON, qualname='split_iter', lean_name='split_iter_value', kind='generator',
+         tparams=['α'], ops={'eqv': 'Fn α → α → Bool'},
+         params={'src': 'List α', 'sep': 'α', 'maxsplit': 'Option Int'},
+         kinds={'src': 'list', 'sep': 'value'},
+         locals={'sep_func': 'Fn α → Bool', 'cur_group': 'List α', 'split_count': 'Int'}, result='List α',
+         tie_theorem='C09.src_split_iter_value_eq_model'),
+    dict(_C09_COMMON, qualname='split_iter', lean_name='split_iter_none', kind='generator',
+         tparams=['α'], ops={'isNone': 'Fn α → Bool'},
+         params={'src': 'List α', 'sep': 'Msg', 'maxsplit': 'Option Int'},
+         kinds={'src': 'list', 'sep': 'none'},
+         locals={'sep_func': 'Fn α → Bool', 'cur_group': 'List α', 'split_count': 'Int'}, result='List α',
+         tie_theorem='C09.src_split_iter_none_eq_model'),
+    dict(_C09_COMMON, qualname='partition', lean_name='partition', kind='function',
+         tparams=['α', 'κ'], classes=['DecidableEq κ'], ops={'pyTrue': 'κ', 'pyFalse': 'κ'},
+         params={'src': 'List α', 'key': 'Fn α → κ'}, kinds={'src': 'list', 'key': 'callable'},
+         locals={'bucketized': 'Dict κ | List α'}, helpers={'bucketize': 'bucketize_plain'},
+         result='(List α) × (List α)', tie_theorem='C09.src_partition_eq_model'),
+]
 SPECS['C09'] = SPECS['C09'] + _C09
